@@ -4,8 +4,10 @@
 (* on databases dumped BY RAW INDEX from libinterrogatedb.  Every line of  *)
 (* $VERIF_STATES is one observed database state                            *)
 (*   {"id":..., "first":f, "single":0/1, "db":{...}, "singles":[db,...]}    *)
-(* (the record format of IdbDB; "singles", when present, are the databases *)
-(* of the libraries that were merged into db, each loaded alone).  One TLC *)
+(* (the record format of IdbDB; "truth", when present, is the ground truth *)
+(* of the header the database was made from, see TruthViol; "singles",     *)
+(* when present, are the databases of the libraries that were merged into  *)
+(* db, each loaded alone).  One TLC                                        *)
 (* step per database; the verdict of every invariant, with the offending    *)
 (* indices as witnesses, is written to $VERIF_DUMP.  The check reports a   *)
 (* property violation for every database whose verdict is not all-true.    *)
@@ -29,12 +31,16 @@ Verdict(x) ==
    wrappersFirst |-> WrappersFirstDB(d, x.first),
    links |-> LinksDB(d),
    backlinks |-> IF x.single = 1 THEN BackLinksDB(d) ELSE {},
+   owners |-> OwnerViol(d),
+   names |-> IF x.single = 1 THEN BuilderNameViol(d) ELSE {},
+   truth |-> IF "truth" \in DOMAIN x THEN {x.truth[j] : j \in TruthViol(d, x.truth)} ELSE {},
    dupTrueNames |-> DupTrueNames(d), dupUnique |-> DupUnique(d), dupWrapperNames |-> DupWName(d),
    union |-> IF "singles" \in DOMAIN x
                THEN UnionOKP(Project(d), {Project(DBOfJson(x.singles[j])) : j \in DOMAIN x.singles})
                ELSE TRUE]
 
-Holds(v) == /\ v.closed /\ v.vectors /\ v.wrappersFirst /\ v.links = {} /\ v.backlinks = {}
+Holds(v) == /\ v.owners = {} /\ v.names = {} /\ v.truth = {}
+            /\ v.closed /\ v.vectors /\ v.wrappersFirst /\ v.links = {} /\ v.backlinks = {}
             /\ v.dupTrueNames = {} /\ v.dupUnique = {} /\ v.dupWrapperNames = {} /\ v.union
 
 Emit ==
